@@ -23,7 +23,7 @@ namespace {
 enum Mode { OFF, COUNT, FAIL, CRASH, DELAY };
 struct Op { int n; std::string kind; std::string path; };
 struct State {
-	Mode mode = OFF; std::string root; int nops = 0; std::vector<Op> trace; bool with_fwrite = false;
+	Mode mode = OFF; std::string root; int nops = 0; std::vector<Op> trace; bool with_fwrite = false; bool with_reads = false;
 	int k = -1; std::string kind; int err = EIO; bool after = false; long torn = -1; bool sticky = false; int injected = 0;
 	uint64_t seed = 1; double p = 0; unsigned maxus = 0;
 	std::mutex mu;
@@ -71,14 +71,16 @@ void post(const char* kind, const std::string& path, int fd_for_torn) {
 extern "C" {
 int open(const char* p, int fl, ...) { static auto r = real<int (*)(const char*, int, ...)>("open"); mode_t m = 0; if (fl & (O_CREAT | O_TMPFILE)) { va_list a; va_start(a, fl); m = va_arg(a, mode_t); va_end(a); }
 	if (!g_ip_active) return r(p, fl, m);
-	bool w = fl & (O_CREAT | O_TRUNC | O_WRONLY | O_RDWR); const char* kind = (fl & O_TRUNC) ? "open-trunc" : (fl & O_CREAT) ? "open-creat" : "open-w";
+	bool w = fl & (O_CREAT | O_TRUNC | O_WRONLY | O_RDWR); const char* kind = (fl & O_TRUNC) ? "open-trunc" : (fl & O_CREAT) ? "open-creat" : w ? "open-w" : "open-r";
+	if (!w && G.with_reads && !(fl & O_DIRECTORY)) w = true;   /* opt-in ("reads": true): read-only opens are operations too */
 	if (w && pre(kind, p)) return -1; int fd = r(p, fl, m); if (w) post(kind, p, -1); return fd; }
 int open64(const char* p, int fl, ...) { static auto r = real<int (*)(const char*, int, ...)>("open64"); mode_t m = 0; if (fl & (O_CREAT | O_TMPFILE)) { va_list a; va_start(a, fl); m = va_arg(a, mode_t); va_end(a); }
 	if (!g_ip_active) return r(p, fl, m);
-	bool w = fl & (O_CREAT | O_TRUNC | O_WRONLY | O_RDWR); const char* kind = (fl & O_TRUNC) ? "open-trunc" : (fl & O_CREAT) ? "open-creat" : "open-w";
+	bool w = fl & (O_CREAT | O_TRUNC | O_WRONLY | O_RDWR); const char* kind = (fl & O_TRUNC) ? "open-trunc" : (fl & O_CREAT) ? "open-creat" : w ? "open-w" : "open-r";
+	if (!w && G.with_reads && !(fl & O_DIRECTORY)) w = true;   /* opt-in ("reads": true): read-only opens are operations too */
 	if (w && pre(kind, p)) return -1; int fd = r(p, fl, m); if (w) post(kind, p, -1); return fd; }
 int creat(const char* p, mode_t m) { static auto r = real<int (*)(const char*, mode_t)>("creat"); if (!g_ip_active) return r(p, m); if (pre("open-trunc", p)) return -1; int fd = r(p, m); post("open-trunc", p, -1); return fd; }
-FILE* fopen(const char* p, const char* mode) { static auto r = real<FILE* (*)(const char*, const char*)>("fopen"); if (!g_ip_active) return r(p, mode); bool w = strpbrk(mode, "wa+") != nullptr; if (w && pre(mode[0] == 'w' ? "open-trunc" : "open-w", p)) return nullptr; FILE* f = r(p, mode); if (w) post("fopen", p, -1); return f; }
+FILE* fopen(const char* p, const char* mode) { static auto r = real<FILE* (*)(const char*, const char*)>("fopen"); if (!g_ip_active) return r(p, mode); bool w = strpbrk(mode, "wa+") != nullptr; const char* fk = mode[0] == 'w' ? "open-trunc" : w ? "open-w" : "open-r"; if (!w && G.with_reads) w = true; if (w && pre(fk, p)) return nullptr; FILE* f = r(p, mode); if (w) post("fopen", p, -1); return f; }
 int ftruncate(int fd, off_t len) { static auto r = real<int (*)(int, off_t)>("ftruncate"); if (!g_ip_active) return r(fd, len); std::string p = fdpath(fd); if (pre("ftruncate", p)) return -1; int rv = r(fd, len); post("ftruncate", p, -1); return rv; }
 int ftruncate64(int fd, off64_t len) { static auto r = real<int (*)(int, off64_t)>("ftruncate64"); if (!g_ip_active) return r(fd, len); std::string p = fdpath(fd); if (pre("ftruncate", p)) return -1; int rv = r(fd, len); post("ftruncate", p, -1); return rv; }
 int truncate(const char* p, off_t len) { static auto r = real<int (*)(const char*, off_t)>("truncate"); if (!g_ip_active) return r(p, len); if (pre("truncate", p)) return -1; int rv = r(p, len); post("truncate", p, -1); return rv; }
@@ -151,7 +153,7 @@ json ip_control(const json& q) {
 	if (mode == "status" || mode == "trace") { }
 	else {
 		G.nops = 0; G.trace.clear(); G.injected = 0; G.k = q.value("k", -1); G.kind = q.value("kind", std::string()); G.err = q.value("errno", (int)EIO); G.after = q.value("when", std::string("before")) == "after"; G.torn = q.value("torn", (long)-1); G.sticky = q.value("sticky", false);
-		G.seed = q.value("seed", (uint64_t)1) | 1; G.p = q.value("p", 0.0); G.maxus = q.value("maxus", 0u); G.with_fwrite = q.value("fwrite", false);
+		G.seed = q.value("seed", (uint64_t)1) | 1; G.p = q.value("p", 0.0); G.maxus = q.value("maxus", 0u); G.with_fwrite = q.value("fwrite", false); G.with_reads = q.value("reads", false);
 		if (q.contains("root")) G.root = q["root"].get<std::string>();
 		G.mode = mode == "off" ? OFF : mode == "count" ? COUNT : mode == "fail" ? FAIL : mode == "crash" ? CRASH : mode == "delay" ? DELAY : OFF;
 	}
